@@ -2,6 +2,7 @@ import FlowRecordProofs.Lemmas.Msgpack
 import FlowRecordProofs.Lemmas.Envelope
 import FlowRecordProofs.Lemmas.Framing
 import FlowRecordProofs.Lemmas.StreamRoundtrip
+import FlowRecordProofs.Lemmas.Utf8
 import FlowRecord.Model.Stream
 /-!
 C01 — record stream round-trip preserves every record exactly. Property theorems only.
@@ -62,6 +63,28 @@ theorem C01_stream_roundtrip_continued (hashOf : Utf8.PyStr → List (Utf8.PyStr
     (hok : HistOK hashOf st.registry objs) (hsz : ∀ b ∈ frames, b.length < 4294967296) :
     readFramesH hashOf (fuel + frames.length) st.registry (streamOf frames) = (rvOfList objs, .eof) :=
   read_writeAll hashOf objs st st' frames fuel hw hhdr hok hsz
+
+/-- S1, text including undecodable bytes: for EVERY byte string — valid UTF-8 or not — decoding it with
+    `surrogateescape` and encoding the result gives exactly the original bytes back. -/
+theorem C01_text_undecodable_bytes (bs : Bytes) : Utf8.encodeSE (Utf8.decodeSE bs) = some bs :=
+  Utf8.encode_decodeSE bs
+
+/-- Hence every text that arose from decoding bytes (the only way undecodable bytes get into a `string` field) meets
+    the text hypothesis `strOK` of the round-trip theorems. -/
+theorem C01_decoded_text_admissible (bs : Bytes) (h : bs.length < 4294967296) : strOK (Utf8.decodeSE bs) :=
+  ⟨bs, Utf8.encode_decodeSE bs, h, rfl⟩
+
+/-- S2, ordinary text: every string of Unicode scalar values (all planes; no lone surrogates) is encodable and decodes
+    back to exactly the same code points. -/
+theorem C01_text_scalars (s : Utf8.PyStr) (hs : ∀ c ∈ s, Utf8.isScalar c) :
+    ∃ bs, Utf8.encodeSE s = some bs ∧ Utf8.decodeSE bs = s := by
+  obtain ⟨bs, h1, h2⟩ := Utf8.decode_encode_scalars s hs
+  exact ⟨bs, h1, h2 bs.length (Nat.le_refl _)⟩
+
+/-- The text hypothesis cannot be dropped: the two escape surrogates U+DCC3 U+DCA9 spell the valid UTF-8 sequence
+    C3 A9, so they are written as those bytes and read back as the single character U+00E9. -/
+theorem C01_text_counterexample :
+    Utf8.encodeSE [0xDCC3, 0xDCA9] = some [0xC3, 0xA9] ∧ Utf8.decodeSE [0xC3, 0xA9] = [0xE9] := by decide
 
 -- non-vacuity: a record with a big integer, text, a UTC timestamp and a nested list satisfies the hypotheses
 namespace C01_nonvacuous
